@@ -25,4 +25,24 @@ def Heap.run (h : Heap) (es : List Effect) : Heap := es.foldl Heap.apply h
 def Effect.Local (e : Effect) (next : Nat) : Prop :=
   ∀ w ∈ e.writes, next ≤ w.1 ∧ w.1 < next + e.allocs
 
+/-! ## frozen buffers (`flags.writeable = False`)
+The start/end array of an IntervalSet and the array of a time index are frozen by their constructors (`fix:` b120f81, c3ecfb8).  A write to a frozen
+buffer raises before anything is stored; an operation (ANY user code holding the exported array, a view of it, or the container) is a sequence of
+attempted writes that stops at the first refusal. -/
+structure FHeap where
+  heap : Heap
+  frozen : Nat → Bool
+
+def FHeap.write (h : FHeap) (w : Nat × Int) : Option FHeap :=
+  if h.frozen w.1 then none else some { h with heap := h.heap.write w }
+
+/-- the state after an operation attempting the writes in order (an exception leaves the writes made so far) -/
+def FHeap.attempt (h : FHeap) : List (Nat × Int) → FHeap
+  | [] => h
+  | w :: ws => match h.write w with
+    | some h' => h'.attempt ws
+    | none => h
+
+def FHeap.run (h : FHeap) (ops : List (List (Nat × Int))) : FHeap := ops.foldl FHeap.attempt h
+
 end Pyn
